@@ -269,6 +269,11 @@ func getPortMap(pod *v1.Pod) map[string]uint32 {
 func (pc *PodCache) deleteIP(ip string, podKey types.NamespacedName) bool {
 	pc.Lock()
 	defer pc.Unlock()
+	if cached, f := pc.ipByPods[podKey]; f {
+		// Delete the pod from the IP it is cached under: its IP may have changed in the very update that takes it
+		// out of the endpoints (or in an update that was never handled), and the old entry would stay for ever.
+		ip = cached
+	}
 	if pc.podsByIP[ip].Contains(podKey) {
 		sets.DeleteCleanupLast(pc.podsByIP, ip, podKey)
 		delete(pc.ipByPods, podKey)
